@@ -27,22 +27,24 @@ func namePool() []tname {
 var predPool = []predT{{"All", ""}, {"Ns", "x"}, {"Ns", "type"}, {"Ns", "function"}, {"NameLower", "a"}, {"NameLower", "car"}, {"NameLower", "integer"},
 	{"NameLower", "foo::car"}, {"Qualified", ""}}
 
-func def(l int, n tname, v int) opT  { return opT{Kind: "Define", L: l, N: n, V: v} }
-func load(l int, n tname) opT        { return opT{Kind: "Load", L: l, N: n} }
-func loadEntry(l int, n tname) opT   { return opT{Kind: "LoadEntry", L: l, N: n} }
-func getEntry(l int, n tname) opT    { return opT{Kind: "GetEntry", L: l, N: n} }
-func has(l int, n tname) opT         { return opT{Kind: "Has", L: l, N: n} }
-func discover(l int, p predT) opT    { return opT{Kind: "Discover", L: l, P: p} }
-func newParented(p int) opT          { return opT{Kind: "NewParented", L: p} }
-func fork(p int) opT                 { return opT{Kind: "Fork", L: p} }
-func newTypeSet(p int, t int) opT    { return opT{Kind: "NewTypeSet", L: p, T: t} }
-func newDep() opT                    { return opT{Kind: "NewDep"} }
-func addType(l int, v int) opT       { return opT{Kind: "AddType", L: l, N: tn("type", vtable[v].v.(interface{ Name() string }).Name()), V: v} }
-func seq(ops ...opT) []opT           { return ops }
-func cat(a []opT, b ...opT) []opT    { return append(append([]opT{}, a...), b...) }
-func allPred() predT                 { return predT{"All", ""} }
-func nsPred(s string) predT          { return predT{"Ns", s} }
-func nameLower(s string) predT       { return predT{"NameLower", s} }
+func def(l int, n tname, v int) opT { return opT{Kind: "Define", L: l, N: n, V: v} }
+func load(l int, n tname) opT       { return opT{Kind: "Load", L: l, N: n} }
+func loadEntry(l int, n tname) opT  { return opT{Kind: "LoadEntry", L: l, N: n} }
+func getEntry(l int, n tname) opT   { return opT{Kind: "GetEntry", L: l, N: n} }
+func has(l int, n tname) opT        { return opT{Kind: "Has", L: l, N: n} }
+func discover(l int, p predT) opT   { return opT{Kind: "Discover", L: l, P: p} }
+func newParented(p int) opT         { return opT{Kind: "NewParented", L: p} }
+func fork(p int) opT                { return opT{Kind: "Fork", L: p} }
+func newTypeSet(p int, t int) opT   { return opT{Kind: "NewTypeSet", L: p, T: t} }
+func newDep() opT                   { return opT{Kind: "NewDep"} }
+func addType(l int, v int) opT {
+	return opT{Kind: "AddType", L: l, N: tn("type", vtable[v].v.(interface{ Name() string }).Name()), V: v}
+}
+func seq(ops ...opT) []opT        { return ops }
+func cat(a []opT, b ...opT) []opT { return append(append([]opT{}, a...), b...) }
+func allPred() predT              { return predT{"All", ""} }
+func nsPred(s string) predT       { return predT{"Ns", s} }
+func nameLower(s string) predT    { return predT{"NameLower", s} }
 
 // corpus: minimised regressions and the scenarios named in the property statement; always run first,
 // always sent to the model.
@@ -104,7 +106,8 @@ func (r *runner) corpus() {
 
 type shape struct {
 	name    string
-	short   int // the exhaustive length is reduced by this much
+	short   int  // the exhaustive length is reduced by this much
+	deep    bool // enumerated one step longer in the thorough tier
 	setup   []opT
 	loaders []int
 	names   []tname
@@ -114,15 +117,15 @@ type shape struct {
 
 func shapes() []shape {
 	return []shape{
-		{"fresh-chain", 0, seq(newDep(), newParented(1), newParented(2)), []int{1, 2, 3}, []tname{tn("x", "a"), tn("x", "A"), tn("x", "b")}, []int{0, 1},
+		{"fresh-chain", 0, true, seq(newDep(), newParented(1), newParented(2)), []int{1, 2, 3}, []tname{tn("x", "a"), tn("x", "A"), tn("x", "b")}, []int{0, 1},
 			[]predT{allPred()}},
-		{"static-chain", 1, seq(newParented(0), fork(1)), []int{1, 2}, []tname{tn("type", "Integer"), tn("type", "integer"), tn("x", "a")}, []int{8, 10},
+		{"static-chain", 1, true, seq(newParented(0), fork(1)), []int{1, 2}, []tname{tn("type", "Integer"), tn("type", "integer"), tn("x", "a")}, []int{8, 10},
 			[]predT{nsPred("x"), nameLower("integer")}},
-		{"typeset-leaf", 0, seq(newDep(), newParented(1), newTypeSet(2, 0)), []int{2, 3}, []tname{tn("type", "Car"), tn("type", "foo::car"), tn("type", "Foo::Nope"), tn("type", "nope")},
+		{"typeset-leaf", 0, true, seq(newDep(), newParented(1), newTypeSet(2, 0)), []int{2, 3}, []tname{tn("type", "Car"), tn("type", "foo::car"), tn("type", "Foo::Nope"), tn("type", "nope")},
 			[]int{8, 10}, []predT{allPred()}},
-		{"typeset-inner", 0, seq(newDep(), newTypeSet(1, 0), newParented(2)), []int{1, 2, 3}, []tname{tn("type", "car"), tn("type", "Foo::Car"), tn("type", "b")}, []int{4, 5},
+		{"typeset-inner", 0, false, seq(newDep(), newTypeSet(1, 0), newParented(2)), []int{1, 2, 3}, []tname{tn("type", "car"), tn("type", "Foo::Car"), tn("type", "b")}, []int{4, 5},
 			[]predT{allPred()}},
-		{"eq-values", 0, seq(newDep(), newParented(1)), []int{1, 2}, []tname{tn("x", "a"), tn("type", "A")}, []int{4, 5, 6, 8, 9},
+		{"eq-values", 0, false, seq(newDep(), newParented(1)), []int{1, 2}, []tname{tn("x", "a"), tn("type", "A")}, []int{4, 5, 6, 8, 9},
 			[]predT{allPred()}},
 	}
 }
@@ -165,17 +168,25 @@ func (s shape) observers() []opT {
 
 func (r *runner) exhaustive() {
 	cf := newCases()
-	maxLen := 3
 	coqBudget := 260
 	if r.cfg.Thorough() {
-		maxLen = 4
 		coqBudget = 1800
+	}
+	lenOf := func(s shape) int {
+		if r.cfg.Thorough() && s.deep {
+			return 4 - s.short
+		}
+		return 3 - s.short
+	}
+	maxLen := 3
+	if r.cfg.Thorough() {
+		maxLen = 4
 	}
 	total := 0
 	for _, s := range shapes() {
 		n := len(s.alphabet())
 		p := 1
-		for l := 1; l <= maxLen-s.short; l++ {
+		for l := 1; l <= lenOf(s); l++ {
 			p *= n
 			total += p
 		}
@@ -198,7 +209,7 @@ func (r *runner) exhaustive() {
 				rec(append(seqn, o), l)
 			}
 		}
-		for l := 1; l <= maxLen-s.short; l++ {
+		for l := 1; l <= lenOf(s); l++ {
 			rec(nil, l)
 		}
 	}
@@ -211,7 +222,7 @@ func (r *runner) exhaustive() {
 func randomHistory(r *lib.Rng, n int) []opT {
 	pool := namePool()
 	ops := []opT{}
-	nl := 1 // loader 0 = static
+	nl := 1                // loader 0 = static
 	target := []int{0}     // the loader that receives definitions made through loader l (type-set loaders define into their parent)
 	static := []bool{true} // rooted at the static loader: Discover predicates are kept selective (167 core entries)
 	// a few hot names so that histories revisit the same entries
